@@ -151,6 +151,13 @@ def run(chk):
     jobs = [("inline", projgen.gen_project(chk.seed + 1700, i, PROF_INLINE), i) for i in range(k)]
     jobs += [("ctxlist", projgen.gen_project(chk.seed + 1750, i, PROF), i) for i in range(k)]
     jobs += [("reject", projgen.gen_project(chk.seed + 1790, i, projgen.DEFAULT_PROFILE), chk.seed * 17 + i) for i in range(k // 2)]
+    pairs = [("corpus:" + c["signature"], c["project"], c["expanded"]) for c in common.load_corpus("C17") if c.get("pair")]
+    for sig, p, q in pairs:
+        a, b = fp(projrun.run_impl(p)), fp(projrun.run_impl(q))
+        chk.evaluations += 1
+        chk.count("pair:corpus")
+        if a != b:
+            chk.fail_oracle(sig.split(":", 1)[1], "the project and its manual expansion differ", {"project": p, "expanded": q})
     for kind, p, q, a, b in common.parallel_map(worker, jobs):
         if q is None:
             chk.count(f"{kind}:not-applicable")
